@@ -449,6 +449,15 @@ def run_streams(ctx, case, fmt, nw, ops):
                 ctx.violation(None, "a record does not carry the descriptor (type name) it was created with", detail={"maker": m, "defined_as": MAKER_NAMES.get(m), "record_reports": str(getattr(getattr(rec, "_desc", None), "name", None))})
                 return
             exp = expected_obs(rec, fmt)
+            if (step + len(ops) + m) % 4 == 0:
+                # the application hands the writer a COPY of the record (copy.copy / copy.deepcopy): it is the same record
+                import copy
+
+                rec = copy.deepcopy(rec) if (step + m) % 2 else copy.copy(rec)
+                if expected_obs(rec, fmt) != exp:
+                    ctx.violation(None, "a copy (copy / deepcopy) of a record is not the record it was copied from", detail={"maker": m, "diff": observe.first_diff([exp], [expected_obs(rec, fmt)])})
+                    return
+                ctx.event("records_written_as_copies")
             written[w].append(exp)
             order.append(exp)
             try:
@@ -473,6 +482,32 @@ def run_streams(ctx, case, fmt, nw, ops):
                 # JSON: nested records produce their own record-typed sub-documents inside the line, not extra lines
                 check_json(ctx, case, data, expected, written[w], streams[w].registry(), label, streams[w].path)
             ctx.event("streams:" + fmt)
+        if fmt == "bin" and nw > 1:
+            # the streams are self-contained: read SIDE BY SIDE (one record from each reader in turn)
+            from flow.record import RecordStreamReader
+
+            try:
+                with warnings.catch_warnings():
+                    warnings.simplefilter("ignore")
+                    datas = [st.buf.getvalue() for st in streams]
+                    readers = [iter(RecordStreamReader(io.BytesIO(d_))) for d_ in datas]
+                    got = [[] for _ in readers]
+                    live = list(range(len(readers)))
+                    while live:
+                        for w in list(live):
+                            r = next(readers[w], None)
+                            if r is None:
+                                live.remove(w)
+                            else:
+                                got[w].append(mask(observe.normalise(observe.obs(r))))
+                for w in range(nw):
+                    if got[w] != written[w]:
+                        ctx.violation(classify(case, "bin", ""), "bin streams of %d writers read side by side: reader %d does not return its own stream's records" % (nw, w + 1),
+                                      detail={"diff": observe.first_diff(written[w], got[w]), "history": ops})
+                        break
+            except Exception as e:  # noqa: BLE001
+                ctx.violation(classify(case, "bin", ""), "bin streams of %d writers read side by side: a reader fails: %s" % (nw, type(e).__name__), detail={"exception": repr(e)[:300], "history": ops})
+            ctx.event("bin_streams_read_side_by_side", nw)
         if fmt == "json" and nw > 1:
             # the files are self-contained: reading them SIDE BY SIDE (one record from each reader in turn) must give
             # every reader exactly its own file's records - nothing learnt from one file may leak into another reader
